@@ -179,6 +179,9 @@ func lowerRFC(s string) string {
 var hostileNicks = []string{"me", "ME", "bob", "Bob", "carl", "d[x]", "D{X}", "srv", "a", ""}
 var hostileChans = []string{"#a", "#A", "#b", "&c", "#a{", "#A[", "", "x"}
 
+// texts with formatting control codes in every truncated shape (each received line is also formatted for the debug log and Config.Out)
+var hostileTexts = []string{"hi", "\x034,", "\x03", "\x0312,", "\x031,1x", "\x02bold\x0f", "a\x03", "\x0399,99", "\x034,x\x03,", "\x1f\x1d\x16\x0f\x02", "\x03\x03\x03", "x\x031", "\x03123,456", "{b}{red}x{c}", "\x01ACTION\x01", "\x01"}
+
 func (r *RNG) hostileLine(nick string) string {
 	n := func() string { return r.Pick(hostileNicks) }
 	ch := func() string { return r.Pick(hostileChans) }
@@ -221,7 +224,7 @@ func (r *RNG) hostileLine(nick string) string {
 	case 15:
 		return src() + "TOPIC " + ch() + r.Pick([]string{"", " :new topic"})
 	case 16:
-		return ":srv 332 " + nick + " " + ch() + " :the topic"
+		return ":srv 332 " + nick + " " + ch() + " :" + r.Pick(append([]string{"the topic"}, hostileTexts...))
 	case 17:
 		return ":srv 352 " + nick + " " + ch() + " u h srv " + n() + " H :0 Real"
 	case 18:
@@ -233,7 +236,7 @@ func (r *RNG) hostileLine(nick string) string {
 	case 21:
 		return src() + "CHGHOST nu nh"
 	case 22:
-		return "@account=" + r.Pick([]string{"x", "a\\sb", ""}) + " " + src() + "PRIVMSG " + ch() + " :hi"
+		return "@account=" + r.Pick([]string{"x", "a\\sb", ""}) + " " + src() + r.Pick([]string{"PRIVMSG ", "NOTICE ", "TOPIC "}) + ch() + " :" + r.Pick(hostileTexts)
 	case 23:
 		return ":srv 005 " + nick + " " + r.Pick([]string{"CHANMODES=beI,k,l,imnpst PREFIX=(qaohv)~&@%+", "NICKLEN=20 LINELEN=1024", "PREFIX=(ov", "CHANMODES=b,k", "NETWORK=X HOSTLEN=abc"}) + " :are supported by this server"
 	case 24:
@@ -317,6 +320,42 @@ func runC05(c *Ctx) {
 		if i < 2 {
 			r.Sample(steps)
 		}
+	}
+	// (ii-b) churn: ONE other nick, two channels, the client itself joining and leaving (PART, KICK by an untracked source),
+	// the other user speaking, leaving, coming back in the same or another spelling — create/delete/re-create cycles of the
+	// same identity, where anything remembered about a deleted object shows
+	for i := 0; i < 120*c.Scale; i++ {
+		steps := []string{"R:srv 001 me :Welcome"}
+		chs := []string{"#a", "#b"}
+		who := func() string { return c.Rng.Pick([]string{"bob", "bob", "bob", "Bob", "carl"}) }
+		for k := 8 + c.Rng.Intn(14); k > 0; k-- {
+			ch := c.Rng.Pick(chs)
+			switch c.Rng.Intn(12) {
+			case 0, 1:
+				steps = append(steps, "R:me!u@h JOIN "+ch, "R:srv 353 me = "+ch+" :me"+c.Rng.Pick([]string{"", " @bob", " bob +carl"}))
+			case 2:
+				steps = append(steps, "R:me!u@h PART "+ch)
+			case 3:
+				steps = append(steps, "R:"+c.Rng.Pick([]string{"srv", "chanserv!s@services", "bob!u@h"})+" KICK "+ch+" me :out")
+			case 4, 5:
+				steps = append(steps, "R:"+who()+"!u@h JOIN "+ch)
+			case 6, 7:
+				steps = append(steps, "R:"+who()+"!u@h "+c.Rng.Pick([]string{"PRIVMSG", "NOTICE", "TOPIC"})+" "+ch+" :words")
+			case 8:
+				steps = append(steps, "R:"+who()+"!u@h "+c.Rng.Pick([]string{"PART " + ch, "QUIT :bye", "NICK " + who()}))
+			case 9:
+				steps = append(steps, "R:srv 353 me = "+ch+" :"+who()+" me")
+			case 10:
+				steps = append(steps, "R:srv KICK "+ch+" "+who()+" :out")
+			default:
+				steps = append(steps, "R:"+who()+"!u@h PRIVMSG me :private words")
+			}
+			if c.Rng.Chance(25) {
+				steps = append(steps, "D")
+			}
+		}
+		steps = append(steps, "D", "R:me!u@h PART #a", "R:me!u@h PART #b", "D")
+		run(steps, "churn")
 	}
 	// (iii) directed: NICK between spellings that are / are not the same identity under the RFC1459 fold (ASCII case
 	// AND [ ] \ ^ vs { } | ~), for a user in two channels next to another user whose nick collides; then the renamed user leaves
